@@ -40,3 +40,7 @@ def check(m, run):
     skel_drivers.c06_kv(m, run)
     kv_pure(m, run, 'helpers.knot_removal_kv')
     run.floor('SS1.reads-follow-the-working-copy', 2, 'rows and slabs')
+    from . import c03 as _c03
+    _c03.tol2(m, run)
+
+
